@@ -703,7 +703,7 @@ class TransformToGaussian(OutputWarper):
     labels_arr = np.asarray(labels_arr, dtype=np.float64)
     labels_arr_flattened = labels_arr.flatten()
     if self.use_rank:
-      base_for_transform = np.argsort(labels_arr_flattened)
+      base_for_transform = stats.rankdata(labels_arr_flattened, method='dense')
     else:
       base_for_transform = labels_arr_flattened
     base_for_transform_normalized = (
